@@ -80,7 +80,7 @@ func init() { harness.Register(Prop{}) }
 func (Prop) ID() string { return "C13" }
 
 var allKinds = []string{"Define", "DefineDot", "Set", "Get", "Delete", "DeleteGlobal", "DefineType", "Type",
-	"ValueSymbols", "TypeSymbols", "Copy", "DeepCopy", "String", "Addr", "NewModule", "EnvFromPath", "DefineGlobal", "EnvFromPath2", "CopyMut", "DeepCopyMut", "DeleteK", "SetLookup", "ClearLookup"}
+	"ValueSymbols", "TypeSymbols", "Copy", "DeepCopy", "String", "Addr", "NewModule", "EnvFromPath", "DefineGlobal", "EnvFromPath2", "CopyMut", "DeepCopyMut", "DeleteK", "SetLookup", "ClearLookup", "NewEnv"}
 
 func (Prop) Gen(seed int64, tier string) *harness.Case {
 	r := harness.Rand(seed)
@@ -187,7 +187,24 @@ func (Prop) Gen(seed int64, tier string) *harness.Case {
 		total += n
 		w.Clients = append(w.Clients, ops)
 	}
-	if readMostly {
+	if r.Intn(12) == 0 {
+		// children of one scope taken by several clients at once, more than a handful each (whatever NewEnv keeps per
+		// parent - a free list, a chunk - is then refilled while another client is inside NewEnv)
+		w.Clients, total = nil, 0
+		for c := 0; c < nClients; c++ {
+			var ops []Op
+			n := 4 + r.Intn(8)
+			for i := 0; i < n; i++ {
+				ops = append(ops, Op{Kind: "NewEnv", Val: 1000*(c+1) + i})
+			}
+			if r.Intn(2) == 0 {
+				ops = append(ops, Op{Kind: "Define", Name: valNames[0], Val: 1000*(c+1) + n})
+			}
+			total += len(ops)
+			w.Clients = append(w.Clients, ops)
+		}
+		readMostly = false
+	} else if readMostly {
 		// long stretches of lookups around one writer that defines and reads back: what a read-mostly
 		// fast path (snapshots, caches published after n lookups) has to survive
 		w.Clients, total = nil, 0
@@ -360,6 +377,9 @@ func apply(st state, op Op, rooted bool) (state, Out) {
 			return st, Out{}
 		}
 		return st, Out{Err: "undef"}
+	case "NewEnv":
+		// a child scope: it is new (nothing in it), and taking it changes nothing in S
+		return st, Out{}
 	case "SetLookup":
 		st.lookup = op.Val
 		return st, Out{}
@@ -484,6 +504,31 @@ type runner struct {
 	stamp  int64
 	recs   [][]*rec
 	modIDs map[*env.Env]int
+	// children: the scopes NewEnv handed out, each marked by its owner with a value of its own
+	children []childRec
+}
+
+type childRec struct {
+	e   *env.Env
+	own int
+}
+
+// childrenIntact: every scope NewEnv handed out belongs to one caller only - all distinct, each still holding exactly
+// the one binding its owner made.
+func (r *runner) childrenIntact() string {
+	seen := map[*env.Env]int{}
+	for _, c := range r.children {
+		if other, dup := seen[c.e]; dup {
+			return fmt.Sprintf("NewEnv handed the same scope to two callers (marked %d and %d)", other, c.own)
+		}
+		seen[c.e] = c.own
+		syms := c.e.GetValueSymbols()
+		v, err := c.e.Get("own")
+		if len(syms) != 1 || err != nil || v != c.own {
+			return fmt.Sprintf("a scope NewEnv handed out, in which its owner bound only own=%d, now lists %v with own=%v (%v)", c.own, syms, v, err)
+		}
+	}
+	return ""
 }
 
 func (r *runner) tick() int64 { r.mu.Lock(); defer r.mu.Unlock(); r.stamp++; return r.stamp }
@@ -547,6 +592,15 @@ func (r *runner) exec(rc *rec) {
 		rc.out.Err = errClass(e.DefineValue(op.Name, newVal(op.Val)))
 	case "DefineGlobal":
 		rc.out.Err = errClass(e.DefineGlobalValue(op.Name, newVal(op.Val)))
+	case "NewEnv":
+		ch := e.NewEnv()
+		syms := ch.GetValueSymbols()
+		sort.Strings(syms)
+		rc.out.Str = strings.Join(syms, ",") // a fresh scope lists nothing
+		ch.DefineValue("own", newVal(op.Val))
+		r.mu.Lock()
+		r.children = append(r.children, childRec{ch, op.Val})
+		r.mu.Unlock()
 	case "SetLookup":
 		e.SetExternalLookup(&stubLookup{newVal(lookupBase + op.Val)})
 	case "ClearLookup":
@@ -802,6 +856,12 @@ func (r *runner) judge(wp *Work, final *rec, res *harness.Result, verbose bool) 
 			res.Signature = "op-panic:" + rc.op.Kind
 			return res
 		}
+	}
+	if msg := r.childrenIntact(); msg != "" {
+		res.Violation = "shared-child-scope"
+		res.Detail = msg
+		res.Signature = "shared-child-scope"
+		return res
 	}
 	for _, rc := range all {
 		in := modelInput{Op: rc.op, Rooted: w.Rooted}
